@@ -52,6 +52,7 @@ type state struct {
 	refTips    []*refBlock
 	hits       []corr.Hit
 	hitSeen    map[string]bool
+	held       []c08x.Held // slices returned by earlier GetN calls, re-checked after later calls
 }
 
 func newState() *state {
@@ -66,6 +67,21 @@ func (st *state) hit(site, what, detail string) {
 	}
 	st.hitSeen[key] = true
 	st.hits = append(st.hits, corr.Hit{Key: key, What: detail})
+}
+
+func (st *state) recheckHeld() {
+	for _, h := range st.held {
+		if ok, what := h.Recheck(); !ok {
+			st.hit(h.Site, "result-overwritten", "a later call rewrote an earlier result: "+what)
+		}
+	}
+}
+
+func (st *state) hold(h c08x.Held) {
+	st.held = append(st.held, h)
+	if len(st.held) > 24 {
+		st.held = st.held[len(st.held)-24:]
+	}
 }
 
 func (st *state) reg(r string) (*bitmap1024.Bit1024, *[1024]bool, bool) {
@@ -350,6 +366,13 @@ func (st *state) run(line string) string {
 	case f[0] == "new" && len(f) == 1:
 		*st = *newState()
 		return "ok"
+	case f[0] == "probe-api" && len(f) == 1:
+		// monitor-only: every exported method of the package's types, called once on throw-away values, must leave the
+		// process-wide mask table intact (methods the scripts do not know about included)
+		for _, bad := range c08x.ProbeAPI() {
+			st.hit("api-probe", "corrupts-mask-table", "after calling "+bad)
+		}
+		return "ok"
 	case f[0] == "magic" && len(f) == 2:
 		m, ok := c08x.ParseInt(f[1], -2147483648, 2147483647)
 		if !ok {
@@ -386,6 +409,36 @@ func (st *state) run(line string) string {
 		}
 		st.roundTrip(*b, ref)
 		return showBytes(buf)
+	case f[0] == "marshal-mutate" && len(f) == 2:
+		// Marshal's result must be detached from the bitmap: scribble over the returned bytes, then look at the bitmap
+		b, ref, ok := st.reg(f[1])
+		if !ok {
+			return "bad-op"
+		}
+		buf, p := safeMarshal(*b)
+		if p {
+			st.hit("Bit1024.Marshal", "panic", "Marshal panicked")
+			return "panic"
+		}
+		orig := append([]byte(nil), buf...)
+		for i := range buf {
+			buf[i] ^= 0xa5
+		}
+		if setOf(*b) != *ref {
+			st.hit("Bit1024.Marshal", "aliases-receiver", fmt.Sprintf("writing to the %d bytes Marshal returned changed the bitmap: members now %d, before %d", len(buf), len(c08x.Members1024(*b)), len(members(ref))))
+			for i := 0; i < 1024; i++ { // put it back: one root cause, one report
+				if ref[i] {
+					(*b)[i/64] |= 1 << uint(i%64)
+				} else {
+					(*b)[i/64] &^= 1 << uint(i%64)
+				}
+			}
+		}
+		// and a second Marshal is not disturbed by what was done to the first result
+		if again, p2 := safeMarshal(*b); !p2 && string(again) != string(orig) {
+			st.hit("Bit1024.Marshal", "aliases-receiver", "a second Marshal of the unchanged bitmap differs after the first result was overwritten")
+		}
+		return showBytes(orig) + " " + c08x.ShowMap(*b)
 	case f[0] == "unmarshal" && len(f) == 3:
 		b, ref, ok := st.reg(f[1])
 		buf, ok2 := parseBytes(f[2])
@@ -629,6 +682,10 @@ func (st *state) run(line string) string {
 				fn, site = b.RGetNAsI64, "BigU32.RIterAsI64"
 			}
 			s, okc := c08x.GetNCall(int(n), fn)
+			st.recheckHeld()
+			if okc && len(s) > 0 {
+				st.hold(c08x.Hold(site, s))
+			}
 			if n >= 0 {
 				want := expectBlock(rb, rev, int(n))
 				switch {
@@ -652,6 +709,10 @@ func (st *state) run(line string) string {
 			fn = b.RGetNAsU32
 		}
 		s, okc := c08x.GetNCall(int(n), fn)
+		st.recheckHeld()
+		if okc && len(s) > 0 {
+			st.hold(c08x.Hold("U32BitTip.getNAsU32", s))
+		}
 		if n >= 0 && rb.start <= 4194303 {
 			want := expectBlock(rb, rev, int(n))
 			got := toI64(s)
@@ -743,6 +804,10 @@ func (st *state) run(line string) string {
 				fn = st.bigs.RGetNAsI64
 			}
 			s, okc := c08x.GetNCall(int(n), fn)
+			st.recheckHeld()
+			if okc && len(s) > 0 {
+				st.hold(c08x.Hold("BigU32s.getNAsI64", s))
+			}
 			if n >= 0 || len(st.bigs) == 0 {
 				// as coded and documented in DESIGN: blocks in index order for both directions
 				var want []int64
@@ -775,6 +840,10 @@ func (st *state) run(line string) string {
 			fn = st.tips.RGetNAsU32
 		}
 		s, okc := c08x.GetNCall(int(n), fn)
+		st.recheckHeld()
+		if okc && len(s) > 0 {
+			st.hold(c08x.Hold("U32BitTips.GetNAsU32", s))
+		}
 		if n >= 0 || len(st.tips) == 0 {
 			var want []int64
 			order := st.refTips
@@ -974,6 +1043,11 @@ func runCase(c corr.Case) (res corr.Result) {
 		}()
 		res.Outs = append(res.Outs, out)
 	}
+	// end of every script: earlier results still intact, process-wide mask table still intact
+	st.recheckHeld()
+	if ok, what := c08x.MaskTableIntact(); !ok {
+		st.hit("u64Tab", "corrupted", what)
+	}
 	res.Hits = st.hits
 	return res
 }
@@ -1046,6 +1120,9 @@ func genMarshal(r *rng.R) corr.Case {
 		m[r.Intn(16)] |= 1<<63 | 1
 	}
 	lines = append(lines, "load a "+showMapU(m), "marshal a", "roundtrip a")
+	if r.Chance(1, 3) {
+		lines = append(lines, "marshal-mutate a", "dump a", "marshal a")
+	}
 	if r.Chance(1, 3) {
 		m2 := mapWithCount(r, pickCount(r))
 		lines = append(lines, "load b "+showMapU(m2), "marshal b", "roundtrip b")
@@ -1433,7 +1510,7 @@ func genBlockWalk(r *rng.R) corr.Case {
 }
 
 func genMalformed(r *rng.R) corr.Case {
-	bad := []string{"", "nope", "marshal", "marshal c", "unmarshal a", "unmarshal a 0", "unmarshal a zz", "unmarshal c 00", "unmarshal a 0G", "roundtrip", "roundtrip c",
+	bad := []string{"", "nope", "marshal", "marshal c", "unmarshal a", "unmarshal a 0", "unmarshal a zz", "unmarshal c 00", "unmarshal a 0G", "roundtrip", "roundtrip c", "marshal-mutate", "marshal-mutate c",
 		"big.fromi64", "big.fromi64 x", "big.fromi64 9223372036854775808", "big.set 0 1", "big.set x 1", "big.getn 0 f 1", "big.getn 9 f 1", "big.iter 0 f 3 0", "big.show 5", "big.rev 1",
 		"tip.fromu32 -1", "tip.fromu32 4294967296", "tip.set 0 5", "tip.getn 0 x 1", "tip.getn 3 f 1", "tip.iter 0 f 1 0 1", "tips.getn q 1", "bigs.getn f", "bigs.getn f x",
 		"big.fromdata -1 00", "tip.fromdata 4294967296 -", "big.fromdata 1", "tip.fromdata 1 0", "BIG.FROMI64 1", "magic", "load a 0", "dump c"}
@@ -1468,7 +1545,7 @@ func fixedCases() []corr.Case {
 				}
 				m[j/64] |= 1 << uint(j%64)
 			}
-			lines = append(lines, "load a "+showMapU(m), "marshal a", "roundtrip a")
+			lines = append(lines, "load a "+showMapU(m), "marshal a", "roundtrip a", "marshal-mutate a", "dump a", "marshal a")
 			cs = append(cs, corr.Case{Tag: "fixed:marshal-boundaries", Lines: lines})
 		}
 	}
@@ -1604,6 +1681,9 @@ func accept(oracle, impl string) bool {
 
 func tOnly(line string) bool { return lastUnknownCfg || strings.HasPrefix(line, "magic ") }
 
+// probeAt: index of the last generated case of each tier (see Count), which is the API probe
+var probeAt = map[string]int{"quick": 4999, "thorough": 99999, "search": 14999}
+
 func spec() corr.Spec {
 	return corr.Spec{
 		Property: "C09",
@@ -1618,6 +1698,10 @@ func spec() corr.Spec {
 			return 15000 // search: after a broken tie; a run through S7 stays well under 2 minutes
 		},
 		Gen: func(r *rng.R, tier string, i int) corr.Case {
+			if i == probeAt[tier] {
+				// last case of the run: if a method damages shared state, nothing after it is affected
+				return corr.Case{Tag: "api-probe", Lines: []string{"new", "probe-api"}}
+			}
 			// full blocks are expensive on the oracle side (1024 list writes per call): a small share; the fixed
 			// `full-blocks` scripts cover every n class on every run
 			if r.Chance(1, 60) {
